@@ -34,6 +34,18 @@ type emptySrc struct {
 func emptySources(t *model.Type) []emptySrc {
 	var out []emptySrc
 	out = append(out, emptySrc{"typed nil pointer", t.Nil().ProtoReflect()})
+	// decoding into a nil message cannot store anything; whatever the codec does
+	// with the input (ignore it, report it) must leave every nil message empty
+	func() {
+		in := model.AllFieldsStream(t.Desc)
+		for _, o := range []proto.UnmarshalOptions{{Merge: true}, {Merge: true, DiscardUnknown: true}, {}} {
+			func() {
+				defer func() { _ = recover() }() // a panic here is the contract's business, not this source's
+				_ = o.Unmarshal(in, t.Nil())
+			}()
+		}
+	}()
+	out = append(out, emptySrc{"typed nil pointer after decodes into a nil message were attempted", t.Nil().ProtoReflect()})
 	out = append(out, emptySrc{"Type().Zero()", t.New().ProtoReflect().Type().Zero()})
 	fresh := t.New().ProtoReflect()
 	fds := t.Desc.Fields()
@@ -321,6 +333,12 @@ func emptyBattery(e protoreflect.Message, tick func(op string)) error {
 		}},
 		{"proto.Marshal", func() error {
 			b, err := proto.Marshal(pm)
+			if requiredErr(err) && model.HasRequired(e.Descriptor()) {
+				// an empty message of a type with required fields: the reference refuses too
+				if _, rerr := proto.Marshal(rm); requiredErr(rerr) {
+					return nil
+				}
+			}
 			if err != nil || len(b) != 0 {
 				return fmt.Errorf("Marshal = %x, %v", b, err)
 			}
@@ -332,6 +350,11 @@ func emptyBattery(e protoreflect.Message, tick func(op string)) error {
 		}},
 		{"MarshalAppend", func() error {
 			b, err := proto.MarshalOptions{}.MarshalAppend([]byte{1, 2, 3}, pm)
+			if requiredErr(err) && model.HasRequired(e.Descriptor()) {
+				if _, rerr := proto.Marshal(rm); requiredErr(rerr) {
+					return nil
+				}
+			}
 			if err != nil || !bytes.Equal(b, []byte{1, 2, 3}) {
 				return fmt.Errorf("MarshalAppend = %x, %v", b, err)
 			}
@@ -379,7 +402,13 @@ func emptyBattery(e protoreflect.Message, tick func(op string)) error {
 			}
 			return nil
 		}},
-		{"proto.CheckInitialized", func() error { return proto.CheckInitialized(pm) }},
+		{"proto.CheckInitialized", func() error {
+			e1, e2 := proto.CheckInitialized(pm), proto.CheckInitialized(rm)
+			if (e1 == nil) != (e2 == nil) {
+				return fmt.Errorf("CheckInitialized = %v, reference %v", e1, e2)
+			}
+			return nil
+		}},
 		{"protojson.Marshal", func() error {
 			got, err1 := protojson.Marshal(pm)
 			want, err2 := protojson.Marshal(rm)
@@ -574,6 +603,9 @@ func replayC09(ctx *Ctx, c *Case) error {
 		}
 		pb, err1 := det.Marshal(p)
 		sb, err2 := det.Marshal(set)
+		if requiredErr(err1) && requiredErr(err2) && model.HasRequired(t.Desc) {
+			return nil // the member's type has required fields: neither form can be marshalled
+		}
 		if err1 != nil || err2 != nil || !bytes.Equal(pb, sb) {
 			return fmt.Errorf("oneof member %s held as nil encodes as %x (%v), set to an allocated empty message as %x (%v)", fd.Name(), pb, err1, sb, err2)
 		}
